@@ -188,15 +188,13 @@ def run(chk, replay=None):
 
 
 def pattern_from_flags(bad, r, job):
-    if "type" in bad:
-        return "class-changed"
-    if "Tuple(" in r.get("shown", "") and "Tuple(" not in job["shown"] or "(" + "(" in r.get("shown", "").replace(job["shown"], ""):
-        return "nested-argument-flattened-to-tuple"
-    if bad == ["attrs"] or ("attrs" in bad and "eq" in bad and "srepr" not in bad):
-        return "non-sympy-attribute-changed"
+    if r.get("pattern"):
+        return r["pattern"]
     if bad == ["hash"]:
         return "hash-differs"
-    return "arguments-differ"
+    if bad == ["srepr"]:
+        return "srepr-differs"
+    return "differs-in-" + "-".join(bad)
 
 
 # ---- models ------------------------------------------------------------------------------------------------------
